@@ -20,29 +20,26 @@ CHECK_DEADLOCK FALSE
 """
 
 
-def build_table(path, maxlen):
+def table_row(code, digits):
     import eqsig
     from eqsig.displacements import calc_velo_and_disp_from_accel_arr as f
     from eqsig import im
-    lv = np.array(LEVELS)
-    nrows = 0
-    with open(path, "w") as out:
-        for code, digits in gen.seqs_by_code(len(LEVELS), maxlen):
-            a = lv[np.array(digits) - 1]
-            row = [code]
-            if len(a) >= 2:
-                for dt in DTS:
-                    v, d = f(a.copy(), dt, trap=True)
-                    v2, d2 = f(a.copy(), dt, trap=False)
-                    o = eqsig.AccSignal(a.copy(), dt)
-                    fl = [v[-1], d[-1], im.calc_peak(a), im.calc_peak(v), im.calc_peak(d), v2[-1], d2[-1],
-                          o.velocity[-1], o.displacement[-1], o.pga, o.pgv, o.pgd]
-                    for x in fl:
-                        row += enc(x)
-            out.write(" ".join(map(str, row)))
-            out.write("\n")
-            nrows += 1
-    return nrows
+    a = np.array(LEVELS)[np.array(digits) - 1]
+    row = [code]
+    if len(a) >= 2:
+        for dt in DTS:
+            v, d = f(a.copy(), dt, trap=True)
+            v2, d2 = f(a.copy(), dt, trap=False)
+            o = eqsig.AccSignal(a.copy(), dt)
+            fl = [v[-1], d[-1], im.calc_peak(a), im.calc_peak(v), im.calc_peak(d), v2[-1], d2[-1],
+                  o.velocity[-1], o.displacement[-1], o.pga, o.pgv, o.pgd]
+            for x in fl:
+                row += enc(x)
+    return row
+
+
+def build_table(path, maxlen):
+    return gen.build_table(path, len(LEVELS), maxlen, table_row)
 
 
 def series_record(tid, fn, a, dt, trap, rng):
